@@ -257,6 +257,7 @@ def write_evidence(results, seed, tier, wall, nviol, extra=None):
         'solo_reference_calls': tot.get('solo_calls', 0),
         'line_steps': steps,
         'simulated_seconds': simsec,
+        'simulated_seconds_note': 'sum over all runs of |movement| of the simulated wall clock across its reads (ticks, steps, jumps, straddles; backwards moves counted positive)',
         'faults_fired': {
             'preempt_nested_call': tot.get('fired.nest', 0),
             'thread_switches': tot.get('switches', 0),
